@@ -13,7 +13,7 @@ META = {
                  "dominating bound; R03.4 no recursion whose depth is controlled by the input, no VLA with an unbounded bound; "
                  "R03.5 interval check of every signed arithmetic/shift/division reachable from the read entry points; R03.6 "
                  "inet_ntop sources have a checked length; R03.7 every throw is std::exception-derived, no handler on the read "
-                 "path, every tool main wraps its read-API calls in a try with a std::exception/... handler that returns. R03.8: a reference/pointer/iterator into a vector, string or deque is not used after a call that may reallocate or shrink the container. R03.9: a cursor that subscripts the input advances by a step whose interval is >= 1. The read side is everything reachable from the decoder, the reader, the renderers and the five tool mains. R03.11: a pointer / iterator member that refers into a container of the same object (also through accessors of a member object) is re-seated by every member function that can reallocate that container. R03.10: the container FilePreamble::read appends the input's block parameters to is tested for emptiness on every accepting path and is what m_block_parameters holds afterwards (callers take entry 0 outside any handler). R03.3: a min() bound only sanitises an allocation size when the bound is a constant or the size of an existing container - members and parameters may themselves come from the input. R03.2 bounds a built-in array subscript by the interval of the index expression against the array extent. R03.12: every `*o` / `o->` / `o.value()` of an optional: under a presence test of the same optional (dominating guard, left operand of the same &&, condition of the same ?:) or straight after a statement of the same list that stores a value into it; under the NEGATED presence test = violation; `*` / `->` with neither = unrecognised.",
+                 "path, every tool main wraps its read-API calls in a try with a std::exception/... handler that returns. R03.8: a reference/pointer/iterator into a vector, string or deque is not used after a call that may reallocate or shrink the container. R03.9: a cursor that subscripts the input advances by a step whose interval is >= 1. The read side is everything reachable from the decoder, the reader, the renderers and the five tool mains. R03.11: a pointer / iterator member that refers into a container of the same object (also through accessors of a member object) is re-seated by every member function that can reallocate that container. R03.10: the container FilePreamble::read appends the input's block parameters to is tested for emptiness on every accepting path and is what m_block_parameters holds afterwards (callers take entry 0 outside any handler). R03.3: a min() bound only sanitises an allocation size when the bound is a constant or the size of an existing container - members and parameters may themselves come from the input. R03.2 bounds a built-in array subscript by the interval of the index expression against the array extent. R03.12: every `*o` / `o->` / `o.value()` of an optional: under a presence test of the same optional (dominating guard, left operand of the same &&, condition of the same ?:) or straight after a statement of the same list that stores a value into it; under the NEGATED presence test = violation; a dereference the guard says nothing about is not decided (counted).",
     "explanation": "Clause-by-clause static rules over the functions reachable from the read entry points (resolved call graph). "
                    "Full memory safety of C++ is not decided: use-after-free in general, uninitialised reads and libstdc++/boost "
                    "internals are outside reach (C19 covers the one ownership hazard the code has).",
@@ -168,7 +168,7 @@ def check_optional_derefs(run, rule):
     that has it, and a record without it throws (value()) or is undefined behaviour (*, ->).  A dereference whose guard says
     nothing about the optional is left to the rules that own the function."""
     facts = run.facts
-    n = ok_n = 0
+    n = ok_n = undecided = 0
     for f in sorted(facts.functions.values(), key=lambda f_: (f_.get("file", ""), f_.get("line", 0))):
         if not f.get("file", "").startswith(facts.repo) or f.get("body") is None:
             continue
@@ -238,12 +238,8 @@ def check_optional_derefs(run, rule):
                                 break
                 if pos:
                     ok_n += 1
-                elif not neg and not kind.endswith(")"):
-                    base = "%s:%s (%s)" % (fname(f), path_str(p_), kind)
-                    seen[base] = seen.get(base, 0) + 1
-                    run.ob(rule, base if seen[base] == 1 else "%s#%d" % (base, seen[base]), None, f, nd.get("l", 0),
-                           "%s is dereferenced with %s; no presence test of it dominates the access and no value is stored into it just before "
-                           "(guard: %s)" % (path_str(p_), kind, show_f(g)[:120]))
+                elif not neg:
+                    undecided += 1          # (nothing on the path speaks about the optional: left to the rules that own the function)
                 if neg and not pos and tuple(p_) not in assigned and not any(tuple(p_)[:k_] in assigned for k_ in range(1, len(p_))):
                     base = "%s:%s%s" % (fname(f), path_str(p_), ("." + kind) if kind.endswith(")") else " (%s)" % kind)
                     seen[base] = seen.get(base, 0) + 1
@@ -252,7 +248,7 @@ def check_optional_derefs(run, rule):
                            "%s - and is skipped for those that have it" % (
                                path_str(p_), show_f(g)[:120], "boost::bad_optional_access is thrown" if kind.endswith(")") else "undefined behaviour (an empty optional is read)"))
     run.ob(rule, "optional-dereferences", ok_n > 0, None, 0,
-           "%d dereferences of optionals looked at, %d of them directly under a presence test of the same optional, none under its negation" % (n, ok_n),
+           "%d dereferences of optionals looked at, %d of them under a presence test of the same optional or straight after a store into it, %d not decided, none under the negated test" % (n, ok_n, undecided),
            nontrivial=False)
     run.info["optional_derefs"] = n
 
